@@ -24,7 +24,7 @@ MANIFEST = {
     "technique": "Lean 4 proof (induction over the bit list; real arithmetic for the mid-level decision) composed from the DAC/MZM/PD/SAMPLER models, differential run on the pre-filter waveform, end-to-end oracle on the real chain",
     "design": "§5 C03",
 }
-GEN = ["OptDev"]
+GEN = ["OptDev", "Ppm"]
 MODELS = ["OptiVerif.Model.Link", "OptiVerif.Model.Modulators", "OptiVerif.Gen.OptDev"]
 RULE = ("cases = (bit pattern kind: random/PRBS/long runs/alternating/single 1/single 0, sps in {4,5,8,16,33,64}, slot rate, "
         "pulse shape nrz/gaussian, MZM Vpi/loss/ER>=10 dB, launch power, PD r/R_load/BW>=0.7R, 1/2 polarisations, optional DM or "
